@@ -97,6 +97,8 @@ reg = {
         # the catalog walk and the multimap subtree walk between dbverify and merkle
         "tableverify": {"overlay": "units/tableverify.ovl", "canaries": ["canary_tableverify"],
                         "helpers": ["clone", "get_page", "new", "verify_checksum", "fixed_width", "fixed_width_with", "next", "parse_subtree_roots", "value", "range", "hint"]},
+        # the release of a deleted table's pages (fragment of TableTreeMut::delete_table)
+        "tabledel": {"overlay": "units/tabledel.ovl", "canaries": ["canary_tabledel"], "helpers": ["lock", "drop", "from", "remove", "free_if_uncommitted", "uncommitted", "free"]},
         "types_sep": {"overlay": "units/types_sep.ovl", "canaries": ["canary_types_sep"], "helpers": ["common_prefix_len"]},
         # the page-level checksum walk over an abstract page store
         "merkle": {"overlay": "units/merkle.ovl", "canaries": ["canary_merkle"],
@@ -237,7 +239,8 @@ P["C06"] = {
     "verus": [{"unit": "alloc", "functions": ["BuddyAllocator::alloc", "BuddyAllocator::alloc_inner", "BuddyAllocator::free", "BuddyAllocator::free_inner",
                                               "BuddyAllocator::record_alloc", "BuddyAllocator::record_alloc_inner", "BuddyAllocator::new", "BS::*",
                                               "InMemoryState::allocate_helper_retry", "TransactionalMemory::free_helper", "TransactionalMemory::free", "TransactionalMemory::free_if_unpersisted",
-                                              "TransactionalMemory::claim_unpersisted", "PageAllocator::*", "Mutex::lock", "lemma_*"]}],
+                                              "TransactionalMemory::claim_unpersisted", "PageAllocator::*", "Mutex::lock", "lemma_*"]},
+              {"unit": "tabledel", "functions": ["TableTreeMut::delete_table_core"]}],
     "kani": [K["C06-K1"], K["C06-K2"], alias("C10-F6a", "C06-K1b")],
     "native": [dict(NATIVE["X-unp3"], id="C06-X-unp3"), dict(NATIVE["X-unp4"], id="C06-X-unp4"), dict(NATIVE["X-pins3"], id="C06-X-pins3"), dict(NATIVE["X-pins4"], id="C06-X-pins4")],
     "explanation": "Kernel: no block is handed out twice (alloc returns a subset of the free set and removes exactly it - shared with C14); freed-page records are keyed (transaction, page) lexicographically so the reclaimer's range ..(free_until, 0) can never contain a record of a transaction >= free_until; the page-list record returns what was stored; the REAL free_if_unpersisted releases a page at once only when it is in the unpersisted set (allocated by a non-durable commit, so no durable root names it), removes it from that set together with the release, and otherwise changes nothing; the REAL PageAllocator::conditional_free / free_if_uncommitted release a page at once only when this transaction allocated it since its last commit (no committed root can name it) and otherwise queue it, exactly once, for the commit without touching the allocator; free_helper (whole function) makes exactly the block's pages free in its region and touches neither the header, nor another region, nor the storage.",
@@ -285,11 +288,12 @@ P["C15"] = {
 }
 P["C17"] = {
     "level": "proof",
-    "verus": [{"unit": "tablens", "functions": ["TableNamespace::*"]}],
+    "verus": [{"unit": "tablens", "functions": ["TableNamespace::*"]},
+              {"unit": "tabledel", "functions": ["TableTreeMut::delete_table_core", "Mutex::lock", "drop"]}],
     "kani": [K["C17-K1"]],
     "assumptions": ["N1 (tablens unit): the catalog tree (TableTreeMut) is modelled by a ghost log of the operations that reach it, and get_or_create_table never reports TableAlreadyOpen itself; the map of open tables is modelled by the set of its keys (BTreeMap get / insert / remove / is_empty)"],
-    "explanation": "Kernel: (V) the REAL open-table bookkeeping of a write transaction (TableNamespace::inner_open / inner_rename / inner_delete / close_table / close_table_without_update / set_root): a table that is already open is refused with TableAlreadyOpen without consulting or changing anything; otherwise the catalog is consulted exactly once and the name is marked open exactly when the open succeeded - a refused open (wrong type, storage error) leaves the set of open tables as it was; an open table can be neither renamed nor deleted (the catalog is not touched); closing releases exactly that name and stages the table root for the commit. (K) InternalTableDefinition::check_match::<u64,&str> returns Ok iff kind, alignments, key/value type names and fixed widths all agree, and each mismatch yields the corresponding TableError variant (bounded: type names from a pool).",
-    "not_decided": "what the catalog tree itself does (TableTreeMut::get_or_create_table / rename_table / delete_table / list: B-tree operations), release of a deleted table's pages, the typed wrappers around inner_open (Table::new, set_dirty), system tables",
+    "explanation": "Kernel: (V) the REAL open-table bookkeeping of a write transaction (TableNamespace::inner_open / inner_rename / inner_delete / close_table / close_table_without_update / set_root): a table that is already open is refused with TableAlreadyOpen without consulting or changing anything; otherwise the catalog is consulted exactly once and the name is marked open exactly when the open succeeded - a refused open (wrong type, storage error) leaves the set of open tables as it was; an open table can be neither renamed nor deleted (the catalog is not touched); closing releases exactly that name and stages the table root for the commit; (D) the REAL release of a deleted table's pages (fragment of TableTreeMut::delete_table): a failing catalog removal releases and queues nothing; otherwise every page of the table is handled exactly once - released at once iff this transaction had allocated it, else appended in walk order to the queue of pages freed at commit - none is forgotten. (K) InternalTableDefinition::check_match::<u64,&str> returns Ok iff kind, alignments, key/value type names and fixed widths all agree, and each mismatch yields the corresponding TableError variant (bounded: type names from a pool).",
+    "not_decided": "what the catalog tree itself does (TableTreeMut::get_or_create_table / rename_table / delete_table / list: B-tree operations), the page walk that collects a deleted table's pages (visit_all_pages), the typed wrappers around inner_open (Table::new, set_dirty), system tables",
 }
 json.dump(reg, open("/verif/obligations.json", "w"), indent=1)
 print("properties:", sorted(P))
